@@ -235,6 +235,25 @@ def run(tier):
                 for osd in ("b", "a", "d"):
                     plans.append({"kind": "hist", "slots": 12, "ops": ops, "os": osd, "walk": True,
                                   "src": "directed-shrink-in-place-with-live-neighbour"})
+    # directed family "the hole of a freed block takes the same request again": 2n blocks of size s, top
+    # taken away, every second block freed (live neighbours on both sides: nothing coalesces), then n
+    # blocks of size s again - no OS request may be made while such holes exist (NoGratuitousMap, exact
+    # hole rule).  s at every boundary of the request-size classes: MIN_REQUEST, the edges of the small
+    # bins, MAX_SMALL_REQUEST +- 1, the first tree bin, tree-bin edges.
+    nhole = 20
+    min_large = 1 << sh
+    edges = {23, 24, 25, min_large - 25, min_large - 24, min_large - 23, min_large - 8, min_large - 7}
+    for c in (range(48, min_large, 16) if not quick else (48, 128, 224)):
+        edges |= {c - 8, c - 7}
+    for c in ((384, 512, 768, 1024, 4096, 65536) if not quick else (384, 512, 1024)):
+        edges |= {c - 8, c - 7}
+    for s_req in sorted(edges):
+        ops = [["m", i, s_req, 16] for i in range(2 * nhole)] + [["t", 2 * nhole, 32]]
+        ops += [["f", i] for i in range(0, 2 * nhole, 2)] + [["m", i, s_req, 16] for i in range(0, 2 * nhole, 2)]
+        ops += [["f", i] for i in range(2 * nhole + 1)]
+        for osd in (("b",) if quick else ("b", "a", "d")):
+            plans.append({"kind": "hist", "slots": 2 * nhole + 1, "ops": ops, "os": osd,
+                          "src": "directed-hole-takes-the-same-request-again"})
     # multi-threaded: T threads share one allocator behind tiny-std's own Mutex (lock, one call,
     # unlock - the composition GlobalDlMalloc uses); each thread repeats a TLC-generated workload
     n_mt = 12 if quick else 150
@@ -281,18 +300,26 @@ def run(tier):
     # processed in chunks so that memory stays bounded
     jobs = [("debug", bin_dbg, plans[:n_tlc]), ("release", bin_rel, plans[n_tlc:]), ("debug-cycles", bin_dbg, [p for p in cycle_plans if not quick or p["os"] != "d"])]
     CH = 1200
-    work = [(build, bindir, pl[i:i + CH], i, False) for build, bindir, pl in jobs for i in range(0, len(pl), CH)]
-    work += [("debug-realos", bin_dbg, real_plans, 0, True), ("release-realos", bin_rel, real_plans, 0, True)]
+    work = [(build, bindir, pl[i:i + CH], i, False, None) for build, bindir, pl in jobs for i in range(0, len(pl), CH)]
+    work += [("debug-realos", bin_dbg, real_plans, 0, True, None), ("release-realos", bin_rel, real_plans, 0, True, None)]
+    # the same trim/regrow cycles under a kernel that REFUSES mremap (seccomp filter, ENOMEM): the
+    # munmap fall-back of the raw shrink wrapper must still give the memory back - judged on the real
+    # mapping table (VmSize growth, number of mappings, unaccounted bytes) by SteadyState
+    deny_plans = [dict(p, reps=min(p["reps"], 400), base=2, mark_every=50, src="real-os-long-mremap-refused")
+                  for p in real_plans if p.get("src") == "real-os-long"]
+    work += [("release-realos-deny-mremap", bin_rel, deny_plans, 0, True, "mremap")]
+    if not quick:
+        work += [("debug-realos-deny-mremap", bin_dbg, deny_plans, 0, True, "mremap")]
     t0 = time.time()
     stats = {"runs": 0, "events": 0, "ops": 0, "os_map_requests": 0, "os_releases": 0, "repetitions": 0,
              "max_footprint_over_peak_live": 0.0, "runs_with_transient_after_rep2": 0, "crashes": 0, "real_os_runs": 0}
     nontrivial = set()
-    nxt = pool.submit(A.run_driver, chk, work[0][1], work[0][2], "%s_%d" % (work[0][0], work[0][3]), 1800, work[0][4]) if work else None
-    for wi, (build, bindir, pl, off, real) in enumerate(work):
+    nxt = pool.submit(A.run_driver, chk, work[0][1], work[0][2], "%s_%d" % (work[0][0], work[0][3]), 1800, work[0][4], work[0][5]) if work else None
+    for wi, (build, bindir, pl, off, real, deny) in enumerate(work):
         events, crashes = nxt.result()
         if wi + 1 < len(work):
             w2 = work[wi + 1]
-            nxt = pool.submit(A.run_driver, chk, w2[1], w2[2], "%s_%d" % (w2[0], w2[3]), 1800, w2[4])
+            nxt = pool.submit(A.run_driver, chk, w2[1], w2[2], "%s_%d" % (w2[0], w2[3]), 1800, w2[4], w2[5])
         t1 = time.time()
         runs, bad = A.judge(chk, events, "%s_%d" % (build, off), procs=6, cfg=cfg)
         core.log("%s build, plans %d..%d: driver done at +%.1fs (%d events), TLC judge %.1fs" % (
@@ -363,6 +390,7 @@ def run(tier):
         "SteadyState: memory still held at a repetition mark after the first N/2 repetitions <= the most ever held during the first N/2 repetitions + one granularity (a heap that is trimmed after some repetitions and not after others - the OS placed a segment differently - is not growing); runs whose marks after repetition 2 exceed the marks of repetitions 1..2 by more than a granularity are counted as runs_with_transient_after_rep2, not judged",
         "Envelope: footprint <= 2 x peak padded demand + 2 x trim threshold, padded demand of a block = size + 2 x align + 256 + granularity; judged ONLY on allocate-all/free-all workloads (there every block can at worst have a mapping of its own, which the padding covers); on churn, queue and multi-threaded runs blocks of different sizes come and go while others stay, external fragmentation of any allocator can exceed a fixed factor there, so those runs are judged by NoGratuitousMap, ReleaseOnce and (fixed OS policy) SteadyState",
         "NoGratuitousMap exempts requests above a direct-mmap threshold only if the code under test has such a path (constant MMAP_THRESHOLD / fn mmap_alloc in dlmalloc.rs); the pinned port has none, so every request is judged",
+        "NoGratuitousMap, exact hole rule: an OS request of alignment <= 16 is also gratuitous while the extent of a freed block of at least the requested size exists near which (128 bytes) nothing has been placed or unmapped since and whose free did not itself hand memory back to the OS (at most 64 such extents are remembered); TLC checks the rule on the chunk-level design DlHeapMC (it found the last condition; scaled guard 2 fails, 6 = header + minimal chunk suffices, real 128 >= 48)",
         "NoGratuitousMap: an OS request is gratuitous if size + 2 x align + 256 bytes fit into one block-free extent of a single OS-granted piece",
         "real-OS runs (raw syscall wrappers against the real kernel): footprint = growth of the process' VmSize, which also contains whatever the recorder itself maps (its output buffer is pre-reserved); only SteadyState is judged there (60 repetitions, baseline 30)",
         "SteadyState is judged only where the OS policy is the same in every repetition (always below / above / disjoint); runs with a random placement per mapping are judged by Envelope, NoGratuitousMap, ReleaseOnce only",
